@@ -213,3 +213,9 @@ def check(cx):
     cx.include(c04, {"C04.2"}, "C03.7", "shared with C04.2: rolled-back work is hidden only by the snapshot-aware decoders; any read "
                "that decides on the existence of a row or catalog entry through a snapshot-unaware decoder sees rolled-back "
                "inserts, creates and deletes", floor=9)
+
+    # ---- C03.8 (construct shared with C13.1) ---------------------------------------------------------------------
+    from . import c13
+    cx.include(c13, {"C13.1"}, "C03.8", "shared with C13.1: VACUUM, which forgets the aborted ids, must judge a deleted row by the fate of "
+               "its deleter and persist the removal of a rolled-back deletion mark; otherwise a rolled-back DELETE takes effect "
+               "after the next VACUUM", floor=3)
